@@ -12,7 +12,7 @@ import vrun
 from gen import Gen
 from common import cerberus, real_error, canon_errors
 
-LEVEL = "proof"
+LEVEL = "exploration"
 COQ_FILES = []
 FACT_GROUPS = ["F18"]
 ALLOWED_AXIOMS = []
